@@ -1,7 +1,7 @@
 """Configuration alphabets of the scheduler checks (DESIGN.md section 4)."""
 import itertools
 
-BAD = ('raise', 'fail', 'none', 'notpair', 'badstatus', 'badupdate', 'triple', 'clobber', 'badnested')
+BAD = ('raise', 'fail', 'none', 'notpair', 'badstatus', 'badupdate', 'triple', 'clobber', 'badnested', 'nonfinal')
 ALL = ('ok',) + BAD
 
 
